@@ -8,6 +8,10 @@ WORDS = ["a", "b", "Song", "Title", "x.png", "gfx\\banner.png", "0", "1", "", "0
          "TIME=1.5:END=2:MODS=*2 drunk", "120.000:240.000", "*", "http://example.com/a", "C:\\Songs\\x.ogg"]
 EXOTIC = ["\u732b", "\U0001f3b5", "e\u0301", "\u200f", "\ufeff", "\u00e9", "\uac00", "\u30c6\u30b9\u30c8", "\x00", "\x7f"]
 
+# keys one character away from the keywords the loaders and the format detection look for
+NEAR_MISS_KEYS = ["VERSIONS", "VERSION2", "VERSIONINFO", "VERSION ", "VERSIO", "AVERSION", " VERSION", "VERSION\t", "VERSION_",
+                  "NOTES3", "NOTE", "NOTES ", "NOTES2 ", "NOTEDATA2", "NOTEDATAS", "NOTEDAT", "NOTES22", " NOTES"]
+
 _GAP_HASH = re.compile(r"[\r\n][:;\\]*#")
 
 
